@@ -275,16 +275,20 @@ class Emitter:
         return '%s %s' % (ti.c, name)
 
     # ------------------------------------------------------------- functions
-    def fn_cname(self, fn):
-        if fn['id'] in self.cnames:
-            return self.cnames[fn['id']]
+    def fn_cname(self, fn, spec=None):
+        """spec: {param id: target function decl} -- mechanical specialisation of
+        function-reference parameters bound to named repository functions"""
+        skey = (fn['id'], tuple(sorted((k, v['id']) for k, v in (spec or {}).items())))
+        if skey in self.cnames:
+            return self.cnames[skey]
         q = fn.get('_qname') or fn.get('name')
         for pat, rep in self.aliases:
             q = re.sub(pat, rep, q)
         base = sanitize(q)
         targs = template_args(fn)
-        if targs:
-            base += '__' + '_'.join(sanitize(self.short_type(a)) for a in targs)
+        targs_n = [a for a in targs if '(' not in a]
+        if targs_n:
+            base += '__' + '_'.join(sanitize(self.short_type(a)) for a in targs_n)
         kind = fn.get('kind')
         plist = params_of(fn)
         sig = [self.short_type(qt_sugar(p)) for p in plist]
@@ -299,13 +303,17 @@ class Emitter:
                 base += '__' + sanitize(sig[0])
             else:
                 base += '__' + ('_'.join(sanitize(x) for x in sig) if sig else 'void')
+        if spec:
+            for p in plist:
+                if p['id'] in spec:
+                    base += '__' + sanitize(spec[p['id']].get('name'))
         c = base
         k = 2
-        while c in self.used_cnames and self.used_cnames[c] != fn['id']:
+        while c in self.used_cnames and self.used_cnames[c] != skey:
             c = '%s_%d' % (base, k)
             k += 1
-        self.used_cnames[c] = fn['id']
-        self.cnames[fn['id']] = c
+        self.used_cnames[c] = skey
+        self.cnames[skey] = c
         return c
 
     def short_type(self, s):
@@ -313,19 +321,18 @@ class Emitter:
         s = re.sub(r'\b(?:[A-Za-z_][A-Za-z0-9_]*::)+', '', s)
         return s
 
-    def want(self, fn):
-        c = self.fn_cname(fn)
-        if c not in self.fn_text and fn['id'] not in [w['id'] for w in self.work]:
-            self.work.append(fn)
+    def want(self, fn, spec=None):
+        c = self.fn_cname(fn, spec)
+        if c not in self.fn_text and c not in [w[2] for w in self.work]:
+            self.work.append((fn, spec, c))
         return c
 
     def run(self):
         while self.work:
-            fn = self.work.pop(0)
-            c = self.fn_cname(fn)
+            fn, spec, c = self.work.pop(0)
             if c in self.fn_text:
                 continue
-            self.emit_function(fn)
+            self.emit_function(fn, spec)
 
     def owner_record(self, fn):
         p = self.ast.parent.get(id(fn))
@@ -374,12 +381,13 @@ class Emitter:
                 return qt(r['inner'][0])
         return 'void'
 
-    def emit_function(self, fn):
-        c = self.fn_cname(fn)
+    def emit_function(self, fn, spec=None):
+        c = self.fn_cname(fn, spec)
         self.fn_text[c] = None  # reserve
         prev = self.cur
         self.cur = FnCtx(self, fn, c)
         ctx = self.cur
+        ctx.fnparams = dict(spec or {})
         rec = self.owner_record(fn)
         kind = fn.get('kind')
         params = []
@@ -388,6 +396,8 @@ class Emitter:
             params.append('%s *self' % rti.c)
             ctx.this_ti = rti
         for p in params_of(fn):
+            if p['id'] in ctx.fnparams:
+                continue
             ti = self.T(qt(p))
             nm = p.get('name') or ('_unnamed%d' % len(params))
             ctx.locals[p['id']] = (nm, ti)
@@ -513,10 +523,12 @@ class Emitter:
         cn = self.want(ctor)
         return ['%s(&%s%s);' % (cn, lv, ''.join(', ' + a for a in self.call_args(ctor, args)))]
 
-    def call_args(self, callee, args):
+    def call_args(self, callee, args, only=None):
         out = []
         ps = params_of(callee)
         for i, a in enumerate(args):
+            if only is not None and i not in only:
+                continue
             if a.get('kind') == 'CXXDefaultArgExpr':
                 a = self.default_arg(ps[i]) if i < len(ps) else None
                 if a is None:
@@ -983,9 +995,12 @@ class Emitter:
         sub = n['inner'][0]
         if ck in ('LValueToRValue', 'NoOp', 'FunctionToPointerDecay', 'ArrayToPointerDecay',
                   'ConstructorConversion', 'UserDefinedConversion', 'DerivedToBase', 'UncheckedDerivedToBase', 'BuiltinFnToFnPtr'):
-            if ck in ('DerivedToBase', 'UncheckedDerivedToBase'):
-                return self.e(sub)
-            return self.e(sub)
+            x = self.e(sub)
+            if ck == 'LValueToRValue':
+                m = re.match(r'^\(\*(sv_at|sv_front|sv_back|it_deref)\((.*)\)\)$', x)
+                if m and balanced(m.group(2)):
+                    return '%s_v(%s)' % (m.group(1), m.group(2))
+            return x
         if ck in ('IntegralCast', 'IntegralToBoolean', 'PointerToBoolean', 'BitCast', 'NullToPointer', 'IntegralToFloating', 'FloatingToIntegral', 'FloatingCast', 'ToVoid', 'IntegralToPointer', 'PointerToIntegral'):
             ti = self.T(qt(n))
             if ti.kind == 'opq':
@@ -1138,11 +1153,31 @@ class Emitter:
     def e_CallExpr(self, n):
         rd, full, cnode = self.callee_decl(n)
         args = n['inner'][1:]
+        if rd is not None and rd.get('kind') == 'ParmVarDecl' and rd['id'] in self.cur.fnparams:
+            full = self.cur.fnparams[rd['id']]
         if full is not None and full.get('kind') in ('FunctionDecl', 'CXXMethodDecl') and has_body(full) and not self.force_stub(full):
-            cn = self.want(full)
-            a = self.call_args(full, args)
+            spec = {}
+            ps = params_of(full)
+            keep = []
+            for i, a in enumerate(args):
+                if i < len(ps) and self.T(qt(ps[i])).kind == 'fn':
+                    t = a
+                    while t.get('kind') in ('ImplicitCastExpr', 'ParenExpr'):
+                        t = t['inner'][0]
+                    if t.get('kind') == 'DeclRefExpr' and t['referencedDecl'].get('kind') == 'FunctionDecl':
+                        tgt = self.ast.byid.get(t['referencedDecl']['id'])
+                        if tgt is not None and has_body(tgt):
+                            spec[ps[i]['id']] = tgt
+                            continue
+                    if t.get('kind') == 'DeclRefExpr' and t['referencedDecl'].get('id') in self.cur.fnparams:
+                        spec[ps[i]['id']] = self.cur.fnparams[t['referencedDecl']['id']]
+                        continue
+                    raise Unsupported('function-typed argument that is not a named repository function')
+                keep.append(i)
+            cn = self.want(full, spec or None)
+            a = self.call_args(full, args, only=keep)
             rti = self.T(self.ret_type(full))
-            call = '%s(%s)' % (cn, ', '.join(a))
+            call = '(%s%s(%s))' % (self.note_call(cn), cn, ', '.join(a))
             return '(*%s)' % call if rti.ref else call
         if self.lib:
             x = self.lib.call(self, n, rd, full, cnode, args)
@@ -1179,7 +1214,7 @@ class Emitter:
             key = '%s_%d' % (sname, k)
             k += 1
         self.stubs[key] = (retc, len(a))
-        call = '%s(%s)' % (key, ', '.join(a))
+        call = '(%s%s(%s))' % (self.note_call(key), key, ', '.join(a))
         return '(*%s)' % call if rti.ref else call
 
     def e_CXXMemberCallExpr(self, n):
@@ -1193,7 +1228,7 @@ class Emitter:
                 o = self.e(obj) if cnode.get('isArrow') else self.addr(obj)
                 a = [o] + a
             rti = self.T(self.ret_type(full))
-            call = '%s(%s)' % (cn, ', '.join(a))
+            call = '(%s%s(%s))' % (self.note_call(cn), cn, ', '.join(a))
             return '(*%s)' % call if rti.ref else call
         if self.lib:
             x = self.lib.member_call(self, n, cnode, obj, args)
@@ -1218,7 +1253,7 @@ class Emitter:
             else:
                 a = self.call_args(full, args)
             rti = self.T(self.ret_type(full))
-            call = '%s(%s)' % (cn, ', '.join(a))
+            call = '(%s%s(%s))' % (self.note_call(cn), cn, ', '.join(a))
             return '(*%s)' % call if rti.ref else call
         if self.lib:
             x = self.lib.operator_call(self, n, rd, args)
@@ -1269,6 +1304,7 @@ class FnCtx:
         self.locals = {}
         self.bindings = {}
         self.captures = {}
+        self.fnparams = {}
         self.temps = []
         self.loops = []
         self.calls = []
